@@ -29,6 +29,11 @@ type c05Op struct {
 	Kind   string `json:"kind"` // get | put | del | app | inc | cas | scan | scannext | scanclose | scanrenew
 	Row    evid.B `json:"row"`
 	Region int    `json:"region"`
+	// Retried: this is not the call's first attempt: it was serialised once for another region
+	// (FirstRegion) - as when a request comes back NotServingRegion after a split - before it was
+	// given its present region and queued
+	Retried     bool `json:"retried,omitempty"`
+	FirstRegion int  `json:"first_region,omitempty"`
 	// queries
 	Families   []c05Fam `json:"families,omitempty"`
 	TRFrom     uint64   `json:"tr_from,omitempty"`
@@ -237,6 +242,13 @@ func (o c05Op) build() (hrpc.Call, error) {
 	}
 	if err != nil {
 		return nil, err
+	}
+	if o.Retried {
+		call.SetRegion(c05Regions[o.FirstRegion%len(c05Regions)])
+		if m, ok := call.(*hrpc.Mutate); ok {
+			m.SerializeCellBlocks(nil)
+		}
+		call.ToProto()
 	}
 	call.SetRegion(c05Regions[o.Region])
 	return call, nil
@@ -761,6 +773,9 @@ func c05GenOp(t *rapid.T) c05Op {
 	o.Kind = rapid.SampledFrom([]string{"get", "get", "put", "put", "del", "app", "inc", "cas", "scan", "scannext", "scanclose", "scanrenew"}).Draw(t, "kind")
 	o.Row = evid.B(rapid.SliceOfN(rapid.Byte(), 0, 8).Draw(t, "row"))
 	o.Region = rapid.IntRange(0, 3).Draw(t, "region")
+	if rapid.IntRange(0, 4).Draw(t, "retried") == 0 {
+		o.Retried, o.FirstRegion = true, rapid.IntRange(0, 3).Draw(t, "firstregion")
+	}
 	o.SkipBatch = rapid.Bool().Draw(t, "skipbatch")
 	opt := func(label string) bool { return rapid.IntRange(0, 3).Draw(t, label) == 0 }
 	switch o.Kind {
